@@ -7,6 +7,7 @@ import (
 	_ "verifharness/internal/props/c04"
 	_ "verifharness/internal/props/c05"
 	_ "verifharness/internal/props/c06"
+	_ "verifharness/internal/props/c07"
 	_ "verifharness/internal/props/c08"
 	_ "verifharness/internal/props/c09"
 	_ "verifharness/internal/props/c12"
